@@ -45,14 +45,16 @@ class C14(Prop):
     gen_module = "FsConnectGen"
     judge_module = "FsConnectJudge"
     assumptions = [
-        "databases D1, D2, schema S1 (+ INFORMATION_SCHEMA, + none), names in lower/upper/Mixed case",
-        "instance options: both auto-create flags x {in-memory, empty db_path, db_path holding D1.S1 from an earlier instance}",
+        "databases D_1, DX1, schemas S_1, SX1 (each a LIKE pattern of the other) (+ INFORMATION_SCHEMA, + none), names in lower/upper/Mixed case",
+        "instance options: both auto-create flags x {in-memory, empty db_path, db_path holding D_1.S_1 from an earlier instance}",
         "prior state is produced by CREATE DATABASE / CREATE SCHEMA through a context-less session; up to MaxSess connects in any order",
         "'exists' means attached to the instance: a database file that create_database_on_connect=False does not attach does not count",
     ]
 
     def consts(self, tier):
-        return {"Db": {"D1", "D2"}, "Sc": {"S1"}, "DiskDb": "D1", "MaxSess": 3}
+        # the names are each other's LIKE patterns (_ matches any character): D_1 ~ DX1, S_1 ~ SX1 - existence checks must compare
+        # names, not patterns
+        return {"Db": {"D_1", "DX1"}, "Sc": {"S_1"}, "DiskDb": "D_1", "MaxSess": 3}
 
     def model_checks(self, tier):
         c = dict(self.consts(tier), Devs=set(), Depth=7, MaxFails=0, SampleOneIn=1, MaxSess=3 if tier == "thorough" else 2)
@@ -67,7 +69,7 @@ class C14(Prop):
         base = dict(self.consts(tier), Devs=set(), MaxFails=0, SampleOneIn=1)
         g = [
             # the full configuration product: every (instance options x prior state x connect arguments), one path each
-            dict(name="edges", mode="edges", consts=dict(base, MaxSess=1, Depth=5)),
+            dict(name="edges", mode="edges", sample=None if big else 4000, consts=dict(base, Sc={"S_1", "SX1"}, MaxSess=1, Depth=6)),
             # connection order: every transition with up to two earlier sessions
             dict(name="edges2", mode="edges", sample=None if big else 3000, consts=dict(base, MaxSess=2, Depth=6)),
             dict(name="walks", mode="walks", depth=7, num=3000 if big else 400, consts=dict(base, MaxSess=3, Depth=7)),
@@ -96,7 +98,7 @@ class C14(Prop):
                         path = tmp
                     if op["storage"] == "path_existing":
                         old = fakesnow.instance.FakeSnow(db_path=path)
-                        c0 = old.connect("D1", "S1")
+                        c0 = old.connect("D_1", "S_1")
                         c0.cursor().execute("create table keep (i int)")
                         c0.cursor().execute("insert into keep values (1)")
                         old.duck_conn.close()
